@@ -149,6 +149,10 @@ func ideal(p planFlags, start, limit uint64, w *aWorld) (res []aBlock, why strin
 		case lb.LogsNil:
 			fail("null eth_getLogs result")
 		}
+		// the header that comes with the logs is the header already fetched for the last block
+		if limit > 0 && len(blocks[limit-1].Hash) > 0 && !bytes.Equal(blocks[limit-1].Hash, lb.Hhash) {
+			fail("eth_getLogs came with header %x for block %d, the fetched header is %x", lb.Hhash, start+limit-1, blocks[limit-1].Hash)
+		}
 		for _, l := range lb.Logs {
 			if l == nil {
 				fail("null log")
